@@ -344,13 +344,16 @@ HandlerStage(st, m) == Resolve(st, m).ok /\ m.k \notin {"note", "conn"}
 Proj(st) == [ver |-> st.ver, uid |-> st.uid, lvl |-> st.lvl, att |-> AttTopics(st)]
 Refused(m, codes) == IF m.k = "note" THEN \A c \in codes : c >= 400 ELSE codes # {} /\ \A c \in codes : c >= 400
 \* ptk = [code, u, l]: the reply (300 | 200, 0 = none) with which the client's previous token was handed out, and to whom
-NoPtk == [code |-> 0, u |-> "", l |-> ""]
-PtkOf(tok) == [code |-> tok.code, u |-> tok.u, l |-> tok.l]
+\*       r = the token is RESTRICTED by its history: handed out in reply to a login that presented a no-login token (directly or
+\*       through any chain of re-issues), i.e. a restricted token stays restricted however often the server re-issues it
+NoPtk == [code |-> 0, u |-> "", l |-> "", r |-> FALSE]
+PtkOf(tok) == [code |-> tok.code, u |-> tok.u, l |-> tok.l, r |-> tok.nologin]
 FailingLogin(m, ptk) == m.k = "login" /\ (m.sch \in {"unknown", "reset"}
                      \/ m.sec \in {"wrong", "expired", "suspended", "deleted", "nologin", "malformed", "nouser"}
                      \/ (m.sec = "needscred" /\ Validators)
-                     \/ (m.sec = "prev" /\ ptk.code # 200))   \* no token, or one handed out with 'validate credentials'
-Grants(m, ptk) == IF m.k = "login" /\ m.sec = "prev" THEN (IF ptk.code = 200 THEN <<ptk.u, ptk.l>> ELSE <<"", "">>)
+                     \/ (m.sec = "prev" /\ (ptk.code # 200 \/ ptk.r)))   \* no token, one handed out with 'validate credentials',
+                                                                     \* or the re-issue of a restricted (no-login) token
+Grants(m, ptk) == IF m.k = "login" /\ m.sec = "prev" THEN (IF ptk.code = 200 /\ ~ptk.r THEN <<ptk.u, ptk.l>> ELSE <<"", "">>)
              ELSE IF m.k = "login" /\ m.sec = "right" THEN <<"alice", "auth">>
              ELSE IF m.k = "login" /\ m.sec = "rightroot" THEN <<"root", "root">>
              ELSE IF m.k = "acc" /\ m.usr = "new" /\ m.lg = "T" THEN <<"new", "auth">> ELSE <<"", "">>
